@@ -134,4 +134,28 @@ mod verif_kani {
         let back: Result<[u8; 20], E> = TwentyByteVisitor.visit_str(s);
         assert!(matches!(back, Ok(b) if b == data), "[C15.ident.roundtrip] decode(encode(x)) == x");
     }
+
+    /// quick tier: the length rule on ASCII strings of up to 21 characters
+    #[kani::proof]
+    #[kani::unwind(24)]
+    #[kani::stub(std::fmt::format, fmt_stub)]
+    fn visit_str_ascii_len() {
+        let n: usize = kani::any();
+        kani::assume(n <= 21);
+        let mut buf = [0u8; 21];
+        let mut i = 0;
+        while i < n { let c: u8 = kani::any(); kani::assume(c < 128); buf[i] = c; i += 1; }
+        let s = unsafe { std::str::from_utf8_unchecked(&buf[..n]) };
+        let r: Result<[u8; 20], E> = TwentyByteVisitor.visit_str(s);
+        match r {
+            Ok(arr) => {
+                assert!(n >= 20, "[C15.ident.too_short] fewer than 20 characters must be rejected");
+                assert!(n <= 20, "[C15.ident.too_long] more than 20 characters must be rejected");
+                let mut i = 0;
+                while i < 20 { assert!(arr[i] == buf[i], "[C15.ident.value] byte i is the code point of character i"); i += 1; }
+            }
+            Err(_) => assert!(n != 20, "[C15.ident.accept] exactly 20 characters in U+0000..U+00FF must be accepted"),
+        }
+        kani::cover!(r.is_ok());
+    }
 }
